@@ -2,7 +2,8 @@
 
 D-CONSTDIV   division / remainder by a non-zero literal
 D-COUNTER    `x + 1` overflow check on a local bounded by a dominating `x < N` test (N a literal)
-D-LEN        constant index / slice start dominated by a length test on the same container
+D-LEN        constant index / slice start (Index::index or the built-in bounds check of a slice place) dominated by a length
+             test on the same container
 D-SOMESET    unwrap of a place that a dominating statement sets to `Some(..)`, never written otherwise
 D-GUARD      unwrap dominated by an is_some()/is_none() test on the same place
 D-INFALLIBLE the error type of the unwrapped Result is Infallible, or a ciborium/serde write into a Vec
